@@ -211,7 +211,7 @@ def run_one(desc: dict, controller: "Recorder | None" = None) -> dict:
         key = (r.method, r.target, r.body, tuple(sorted((k.lower(), v) for k, v in r.headers if k.lower() not in volatile)))
         with rec.lock:
             dg = digests.setdefault(key, len(digests) + 1)
-        rec.emit({"e": "R", "op": op, "bad": bad, "dg": dg, "case": rec.num(("case", r.header("X-Schemathesis-TestCaseId", "")))})
+        rec.emit({"e": "R", "op": op, "bad": bad, "dg": dg, "case": rec.num(("case", r.header("X-Schemathesis-TestCaseId", ""))), "t": int(r.t_ms)})
         if status == -1:
             raise ConnectionAbortedError("scripted network error")
         return json_response(status, body)
@@ -234,6 +234,8 @@ def run_one(desc: dict, controller: "Recorder | None" = None) -> dict:
 
         server.behaviour = wrapped
         schema = schemathesis.openapi.from_dict(raw).configure(base_url=server.base_url)
+        if desc.get("rate"):
+            schema.configure(rate_limit="%d/s" % desc["rate"])
         settings = hypothesis.settings(
             max_examples=desc.get("max_examples", 3), deadline=None, database=None, derandomize=False,
             stateful_step_count=desc.get("step_count", 3), suppress_health_check=list(hypothesis.HealthCheck),
@@ -314,12 +316,13 @@ def run_one(desc: dict, controller: "Recorder | None" = None) -> dict:
     for ln in rec.lines:
         full = {"e": "", "k": "", "ph": 0, "su": 0, "sc": 0, "op": 0, "st": "", "skip": "", "en": True, "bad": False, "dg": 0,
                 "thr": 0, "nfail": 0, "reqok": True, "code": 0, "site": "", "exc": "", "stop": False, "fails": 0, "limit": False,
-                "rel": True, "err": "", "case": 0, "ctxerr": ""}
+                "rel": True, "err": "", "case": 0, "ctxerr": "", "t": 0}
         full.update(ln)
         lines.append(full)
     hdr = {"nops": nops + extra_ops, "unitops": nops, "workers": desc.get("workers", 1), "maxfail": desc.get("max_failures", 0) or 0,
            "maxex": desc.get("max_examples", 3), "cof": bool(desc.get("cof")), "unique": bool(desc.get("unique")),
            "enabled": [p in desc["phases"] for p in PHASES], "steps": desc.get("step_count", 3),
+           "rateL": int(desc.get("rate") or 0), "rateW": 1000,
            "hasfault": desc.get("fault") is not None, "faultfired": rec.fault_fired,
            "invalid": [i for i, b in enumerate(desc["ops"], 1) if b == "invalid"], "wall_ms": int((time.time() - t0) * 1000),
            "diverged": getattr(rec, "diverged", ""), "followed": getattr(rec, "followed", 0)}
